@@ -7,6 +7,7 @@ use crate::lhs_types::verif_kani::common::array_owned;
 use crate::lhs_types::Bytes;
 
 /// Three one-byte Bytes arguments (symbolic bytes), each present or a typed absence.
+/// NOT REGISTERED: no result in 300 s (the drop of every consumed argument explores the LhsValue::Map tear-down).
 #[kani::proof]
 #[kani::stub(std::mem::drop, crate::lhs_types::verif_kani::common::mem_drop__releases_nothing_observable)]
 #[kani::unwind(4)]
@@ -84,6 +85,7 @@ fn expect_elem(arr: &Array<'_>, i: usize, want: i64) {
     }
 }
 
+/// NOT REGISTERED: no result in 300 s.
 /// Array(Int) arguments: {x} (present or absent), ABSENT, {y, z}: the absent
 /// middle argument does not stop the concatenation.
 #[kani::proof]
@@ -142,6 +144,7 @@ fn concat_arrays__all_absent_is_absent() {
     std::mem::forget(got);
 }
 
+/// NOT REGISTERED: no result in 400 s.
 /// Smallest shape with an absent argument BETWEEN present ones: {x}, absent, {y}
 /// must give {x, y}.
 #[kani::proof]
@@ -169,9 +172,11 @@ fn concat_arrays__absent_between_present() {
     std::mem::forget(it);
 }
 
+/// NOT REGISTERED: no result in 500 s (cadical and minisat).
 /// Two one-byte Bytes arguments, each present or a typed absence.
 #[kani::proof]
 #[kani::stub(std::mem::drop, crate::lhs_types::verif_kani::common::mem_drop__releases_nothing_observable)]
+#[kani::solver(minisat)]
 #[kani::unwind(3)]
 fn concat_bytes__two_args_present_in_order() {
     let a: [u8; 1] = kani::any();
